@@ -79,11 +79,33 @@ def main():
             fac = rng.choice(["StlDiscreteTimeSpecification", "StlDiscreteTimeOfflineSpecification"])
             rels = [{"rel": "same_off", "x": 1, "y": 2}]
         cases.append(case([dt_obj(l, S, vs, factory=fac), dt_obj(r_, S, vs, factory=fac)], evs, rels, law=nm, skip=["evaluate.viol"]))
+    # ---- dense time: both sides on the same dense monitor (offline; online with a single update for past laws)
+    dcases = []
+    for i in range(n // 2):
+        S = rng.choice([1, 2])
+        g = Gen(rng, vars_=("x", "y"), S=S, ops=["not", "and", "or", "once", "onceT", "histT", "since"], ivs=[(0, 1), (1, 2), (0, 0)], bool_atoms=True)
+        p_, q_ = g.formula(rng.choice([0, 0, 1, 1])), g.formula(rng.choice([0, 0, 1]))
+        a = rng.choice([0, 0, 1, 2]); b = a + rng.choice([0, 1, 2, 3]); c = rng.choice([0, 1, 2]); d = c + rng.choice([0, 1, 2])
+        cand = [l_ for l_ in laws(p_, q_, a, b, c, d) if l_[0] not in ("since_exp", "until_exp")]
+        nm, l, r_, kind = rng.choice(cand)
+        vs = sorted(set(vars_of(l) + vars_of(r_)))
+        if not vs or any(q["op"] in BIN2 and not vars_of(q) for q in subformulas(l) + subformulas(r_)):
+            continue
+        end = rng.choice([3, 5, 8])
+        w = {v: gen_signal(rng, rng.choice([2, 3, 4, 5]), t0=0, S=S, end=end) for v in vs}
+        online = kind == "past" and rng.random() < 0.4
+        fac = "StlDenseTimeSpecification"
+        act = "update" if online else "evaluate"
+        evs = [ev_parse(1), ev_parse(2), ev_ct(act, w, 1), ev_ct(act, w, 2)]
+        dcases.append(case([ct_obj(l, S, vs, factory=fac), ct_obj(r_, S, vs, factory=fac)], evs, [{"rel": "same_fn", "x": 1, "y": 2}], law=nm))
+    dtr = runner.run_cases(dcases)
+    dvs, dgen, ddist = core.validate("C18_dense", dtr, module="TraceCt")
+    rep.add_traces(dtr, dvs, dgen, ddist, nontrivial_key=lambda c: c["objs"][0]["text"] + c["objs"][1]["text"] + str(c["events"][-1]["w"]))
+    rep.extra["dense_law_instances"] = {nm: sum(1 for c in dcases if c["law"] == nm) for nm in sorted({c["law"] for c in dcases})}
     traces = runner.run_cases(cases)
     vs_, gen, dist = core.validate("C18", traces)
     rep.add_traces(traces, vs_, gen, dist, nontrivial_key=lambda c: c["objs"][0]["text"] + c["objs"][1]["text"] + str(c["events"][-1].get("w", c["events"][-1].get("s"))))
     rep.extra["law_instances_traced"] = {nm: sum(1 for c in cases if c["law"] == nm) for nm in sorted({c["law"] for c in cases})}
-    rep.assumptions.append("dense-time monitors: the laws are checked for dense time in the dense-time part of this check (see evidence key dense)")
     return rep.finish("TLC: each law as an invariant Sig(lhs)=Sig(rhs) on every trace (also validates the specification's own semantics); "
                       "traces: both sides evaluated by the same real monitor (offline evaluate, online update, online after pastify for the "
                       "bounded-future laws) on the same data and compared with each other pointwise - independent of Sem!Sig - and each with the model")
